@@ -610,6 +610,34 @@ static void p4_run(uint64_t idx, vh_rng_t * rng) {
     kflush();
 }
 
+/* ---- phase "wraplimit" (static-heap configuration): the 255 limit falls at / next to the point where the stored text wraps around
+ * the end of the heap, with a double quote at / next to that point - enumerated, not sampled ------------------------------------- */
+static uint64_t p5_count(int thorough) { build_bcodes(); return VH_INFO_HEAP ? (uint64_t) (thorough ? nbcodes : 10) : 0; }
+static void p5_run(uint64_t idx, vh_rng_t * rng) {
+    static unsigned char t[MAXTEXT];
+    int code, ds, dq, two; size_t k, L = 270;
+    build_bcodes();
+    code = bcodes[(idx * 7) % (uint64_t) nbcodes];
+    k = 254 - strlen(SCPI_ErrorTranslate((int16_t) code)); /* room left for the text behind "description;" */
+    vh_case_desc("static heap: wrap point x quote position around the 255 limit, code %d (room %zu)", code, k);
+    for (ds = -5; ds <= 5; ds++) for (dq = -5; dq <= 3; dq++) for (two = 0; two < 3; two++) {
+        long split = (long) k + ds, q = split + dq; vh_ctx_t * v;
+        if (split < 1 || q < 0 || (size_t) q >= L) continue;
+        gen_base(t, L, rng, ST_PLAIN);
+        { size_t j; for (j = 0; j < L; j++) if (t[j] == '"') t[j] = 'x'; }
+        t[q] = '"';
+        if (two == 1 && q + 1 < (long) L) t[q + 1] = '"';
+        if (two == 2 && q >= 7) t[q - 7] = '"';
+        v = new_ctx();
+        vh_sub = (uint64_t) ((ds + 5) * 100 + (dq + 5) * 10 + two);
+        flow_behind(v, code, t, L, 1, (size_t) split, rng, 0, (unsigned) (ds + dq + two + 20));
+        vh_ctx_free(v);
+        vh_count("heap.wrap_x_quote_at_limit_flows", 1);
+    }
+    vh_distinct(vh_hash_u64((uint64_t) code, 500));
+    kflush();
+}
+
 int main(int argc, char ** argv) {
     static const vh_phase_t phases[] = {
         { "codes", p0_count, p0_run },
@@ -617,6 +645,7 @@ int main(int argc, char ** argv) {
         { "limit", p2_count, p2_run },
         { "random", p3_count, p3_run },
         { "exactsrc", p4_count, p4_run },
+        { "wraplimit", p5_count, p5_run },
     };
     vh_require("query");
     vh_require("text.present");
@@ -637,5 +666,5 @@ int main(int argc, char ** argv) {
     vh_require("heap.wrapped_near_cut");
     vh_require("heap.wrapped_quote_at_split");
 #endif
-    return vh_main(argc, argv, "C18", phases, 5);
+    return vh_main(argc, argv, "C18", phases, 6);
 }
